@@ -216,6 +216,67 @@ pub fn do_step(db: &Db, step: Step) -> parity_db::Result<()> {
 	}
 }
 
+/// Run a pipeline step on a helper thread and watch it: used by the histories that hold tree
+/// reader guards on the stepping thread. The real log worker never waits for a client-held tree
+/// lock (a dereference of a locked tree is postponed, C11); if the step nevertheless blocks on
+/// such a lock it can never return here - the only holder is the caller. The refuting event is the
+/// helper thread SLEEPING without consuming any CPU time for `patience` while the caller does
+/// nothing else (a stable blocked state read from /proc, not a deadline for slow code): then
+/// `Err(description with the thread states)` is returned and the helper thread is abandoned.
+pub fn do_step_watched(db: &Db, step: Step, patience: std::time::Duration) -> Result<parity_db::Result<()>, String> {
+	use std::sync::{atomic::{AtomicU64, Ordering}, mpsc, Arc};
+	let dbp = db as *const Db as usize;
+	let tid = Arc::new(AtomicU64::new(0));
+	let tid2 = tid.clone();
+	let (tx, rx) = mpsc::channel();
+	let h = std::thread::Builder::new()
+		.name("pdbv-step".into())
+		.spawn(move || {
+			tid2.store(unsafe { libc::syscall(libc::SYS_gettid) } as u64, Ordering::SeqCst);
+			// SAFETY: the caller keeps `db` alive until this thread reported back; if it never
+			// does, the caller leaks the handle (a failed history never drops its Db)
+			let db: &Db = unsafe { &*(dbp as *const Db) };
+			let r = do_step(db, step);
+			let _ = tx.send(r);
+		})
+		.map_err(|e| format!("cannot spawn the step thread: {}", e))?;
+	let cpu_and_state = |t: u64| -> Option<(u64, char)> {
+		let s = std::fs::read_to_string(format!("/proc/self/task/{}/stat", t)).ok()?;
+		let rest = &s[s.rfind(')')? + 2..];
+		let f: Vec<&str> = rest.split_whitespace().collect();
+		Some((f.get(11)?.parse::<u64>().ok()? + f.get(12)?.parse::<u64>().ok()?, f.first()?.chars().next()?))
+	};
+	let mut last_cpu = 0u64;
+	let mut idle_since = std::time::Instant::now();
+	loop {
+		match rx.recv_timeout(std::time::Duration::from_millis(250)) {
+			Ok(r) => {
+				let _ = h.join();
+				return Ok(r)
+			},
+			Err(mpsc::RecvTimeoutError::Disconnected) => {
+				let _ = h.join();
+				return Err("the step thread ended without a result (panic inside the step)".into())
+			},
+			Err(mpsc::RecvTimeoutError::Timeout) => {
+				let t = tid.load(Ordering::SeqCst);
+				match cpu_and_state(t) {
+					Some((cpu, st)) if st == 'S' && cpu == last_cpu => {
+						if idle_since.elapsed() >= patience {
+							return Err(format!("step thread {} sleeps without consuming CPU time for {:?}\n{}", t, idle_since.elapsed(), crate::run::thread_states()))
+						}
+					},
+					Some((cpu, _)) => {
+						last_cpu = cpu;
+						idle_since = std::time::Instant::now();
+					},
+					None => {},
+				}
+			},
+		}
+	}
+}
+
 // ---------------------------------------------------------------------------------------------
 // Nested stepping: a deterministic stand-in for two pipeline workers running at the same time.
 // While the OUTER step runs on this thread, the library reaches one of its hand-over sites
